@@ -10,6 +10,8 @@ fn main() {
         Some("minerctl") => minerctl::main(&args[2..]),
         Some("market") => market::main(&args[2..]),
         Some("initd") => initd::main(&args[2..]),
+        Some("sectors") => sectors::main(&args[2..]),
+        Some("evm17") => evm::main(&args[2..]),
         _ => {
             eprintln!("usage: drive <subsystem> ...");
             std::process::exit(2);
